@@ -135,6 +135,22 @@ impl<'a> Tracer<'a> {
             }
         }
     }
+    /// a search with the long-lived generator of this history (depth 1 and 2, fresh context): the answer is
+    /// judged by TSearch (legal move of the position the history leads to, board untouched)
+    pub fn search(&mut self, board: &mut Board, gen: &mut MoveGenerator, depth: u8) -> bool {
+        let r = guarded(|| {
+            let mut ctx = SearchContext::new(depth);
+            alpha_beta_search(&mut ctx, board, gen)
+        });
+        let res = match r {
+            Ok(Ok(m)) => json!({"kind": "ok", "m": Mv::of(&m).to_json()}),
+            Ok(Err(e)) => json!({"kind": format!("{:?}", e).split(|c: char| !c.is_alphanumeric()).next().unwrap_or("err").to_string(), "m": {"k": "-", "f": 0, "t": 0, "p": 0, "c": 0}}),
+            Err(p) => json!({"kind": "panic", "msg": p, "m": {"k": "-", "f": 0, "t": 0, "p": 0, "c": 0}}),
+        };
+        let ok = res["kind"] != "panic";
+        self.emit(json!({"ev": "Search", "depth": depth, "threads": 0, "res": res}), board);
+        ok
+    }
     pub fn toggle(&mut self, board: &mut Board) {
         board.toggle_turn();
         self.emit(json!({"ev": "Toggle"}), board);
@@ -409,6 +425,7 @@ fn scripted(tr: &mut Tracer, gen: &mut MoveGenerator, start: Board, moves: &[&st
     if !tr.count(&mut board) {
         return;
     }
+    let mut played: Vec<ChessMove> = vec![];
     for u in moves {
         let m = match find_uci(&mut board, gen, u) {
             Some(m) => m,
@@ -425,6 +442,21 @@ fn scripted(tr: &mut Tracer, gen: &mut MoveGenerator, start: Board, moves: &[&st
             return;
         }
         if !tr.moves(&mut board) {
+            return;
+        }
+        // the long-lived generator has seen the whole history: the search must still answer for THIS position
+        if board.occupied().count_ones() <= 12 && (!tr.search(&mut board, gen, 1) || !tr.search(&mut board, gen, 2)) {
+            return;
+        }
+        played.push(m);
+    }
+    // take everything back, unregistering each position first: the exact inverse, occurrence counts included
+    while let Some(m) = played.pop() {
+        if !tr.uncount(&mut board) {
+            return;
+        }
+        tr.toggle(&mut board);
+        if !tr.undo(&mut board, &m) {
             return;
         }
     }
